@@ -63,7 +63,9 @@ func (x *Worker) wait() {
 		x.wg = nil
 		x.mu.Unlock()
 		wg.Wait()
+		verifHook("worker.wait.waited")
 	}
+	verifHook("worker.wait.stopping")
 	close(x.stop)
 	<-x.done
 	x.stop, x.done = nil, nil
@@ -71,5 +73,6 @@ func (x *Worker) wait() {
 }
 func (x *Worker) do(fn func(stop <-chan struct{})) {
 	fn(x.stop)
+	verifHook("worker.do.returned")
 	close(x.done)
 }
